@@ -478,6 +478,20 @@ class _Expr(ast.NodeTransformer):
                 if ok:
                     self.changed = True
                     return ast.copy_location(ast.Tuple(elts=vals, ctx=ast.Load()), n)
+        # map(f, xs)  ->  (f(x) for x in xs)     (one iterable, a plain callee)
+        if isinstance(f, ast.Name) and f.id == "map" and len(n.args) == 2 and not n.keywords and not self.t._is_local("map") \
+                and isinstance(n.args[0], (ast.Name, ast.Attribute)):
+            self.changed = True
+            self._mapk = getattr(self, "_mapk", 0) + 1
+            v = f"_mp{self._mapk}"
+            return ast.copy_location(ast.GeneratorExp(
+                elt=ast.Call(func=n.args[0], args=[ast.Name(id=v, ctx=ast.Load())], keywords=[]),
+                generators=[ast.comprehension(target=ast.Name(id=v, ctx=ast.Store()), iter=n.args[1], ifs=[], is_async=0)]), n)
+        # list(<generator expression>)  ->  the list comprehension
+        if isinstance(f, ast.Name) and f.id == "list" and len(n.args) == 1 and not n.keywords and isinstance(n.args[0], ast.GeneratorExp) \
+                and not self.t._is_local("list"):
+            self.changed = True
+            return ast.copy_location(ast.ListComp(elt=n.args[0].elt, generators=n.args[0].generators), n)
         # x.m(*pair)  ->  x.m(pair[0], pair[1])   when every definition of m takes exactly that many more positional parameters
         if len(n.args) >= 1 and isinstance(n.args[-1], ast.Starred) and not any(isinstance(a, ast.Starred) for a in n.args[:-1]) and not n.keywords \
                 and isinstance(f, ast.Attribute) and isinstance(n.args[-1].value, (ast.Name, ast.Attribute, ast.Subscript)):
@@ -969,6 +983,13 @@ def _module_scalar(model, mod, name: str):
         for n in ast.walk(st) if not isinstance(st, (ast.FunctionDef, ast.AsyncFunctionDef, ast.ClassDef)) else []:
             if isinstance(n, ast.Name) and n.id == name and isinstance(n.ctx, (ast.Store, ast.Del)):
                 binds += 1
+    if binds == 0 and name in mod.assigns:
+        # made visible here by the helper inliner: the constant of the module that really binds this very expression
+        for m2 in model.modules.values():
+            if m2 is not mod and m2.assigns.get(name) is mod.assigns[name]:
+                memo.pop(key, None)
+                memo[key] = _module_scalar(model, m2, name)
+                return memo[key]
     if binds != 1:
         return None
     for n in ast.walk(mod.tree):
@@ -1209,13 +1230,15 @@ def _alias_locals(model, f, node) -> bool:
             while isinstance(t, ast.Attribute):
                 chain.append(t.attr)
                 t = t.value
-            if not (isinstance(t, ast.Name) and (t.id in params) and binds.get(t.id, 0) == 0) or len(chain) < 2:
+            if not (isinstance(t, ast.Name) and (t.id in params) and binds.get(t.id, 0) == 0) or len(chain) < 1:
                 continue
             ok = True
             for a in chain:
                 d = sites.get(a)
                 if d is not None and (not d["init_only"]):
                     ok = False
+                if len(chain) == 1 and (d is None or d["stores"] == 0 or d["mutated"]):
+                    ok = False  # a single attribute: only one that is demonstrably set in a constructor and left alone
                 if a in {nm for k in model.classes.values() for nm in k.methods}:
                     ok = False
             if ok:
